@@ -990,7 +990,17 @@ def model_zip(interp, args, kwargs, node):
     return SZip(list(args))
 
 
-@model(list, tuple)
+@model(tuple)
+def model_tuple(interp, args, kwargs, node):
+    if not args:
+        return ()
+    items = concrete_iter(interp, args[0])
+    if items is None:
+        raise OutOfSubset('tuple() of a symbolic-length iterable')
+    return tuple(items)
+
+
+@model(list)
 def model_list(interp, args, kwargs, node):
     if not args:
         return []
